@@ -7,3 +7,15 @@ import "os"
 func verifSourceFromFD(fd int) Source {
 	return &afPacketSource{sock: os.NewFile(uintptr(fd), "verif-socketpair")}
 }
+
+// VerifSinkLinuxFromFD wraps an already open socket in the real Linux sink (the harness hands it unprivileged datagram
+// sockets: the sink's send path is the same sendto(2) whatever the socket type).
+func VerifSinkLinuxFromFD(fd int) (Sink, error) {
+	sock := os.NewFile(uintptr(fd), "verif-sink")
+	rawConn, err := sock.SyscallConn()
+	if err != nil {
+		sock.Close()
+		return nil, err
+	}
+	return &sinkLinux{sock: sock, rawConn: rawConn}, nil
+}
